@@ -545,16 +545,26 @@ class CFG:
 
     def path_avoiding(self, start: Node, goal: Callable[[Node], bool], avoid: Callable[[Node], bool],
                       edge_ok: Optional[Callable[[Node, Node, str], bool]] = None) -> Optional[List[Node]]:
-        """A path start -> (node satisfying goal) none of whose intermediate nodes satisfies avoid; None if there is none."""
+        """A path start -> (node satisfying goal) none of whose intermediate nodes satisfies avoid; None if there is none.
+        The goal may be the start node itself: a cycle start -> .. -> start is a path (loop queries "from the header back to the header")."""
         prev: Dict[int, Optional[Node]] = {start.id: None}
         queue = [start]
+        closed = False
         while queue:
             n = queue.pop(0)
             for m, lab in n.succ:
                 if edge_ok is not None and not edge_ok(n, m, lab):
                     continue
-                if m.id in prev:
+                if m.id in prev and not (m is start and not closed and goal(m)):
                     continue
+                if m is start:
+                    closed = True  # a cycle back to the start node: report it when the start itself is a goal, once
+                    path = [m]
+                    cur0: Optional[Node] = n
+                    while cur0 is not None:
+                        path.append(cur0)
+                        cur0 = prev[cur0.id]
+                    return list(reversed(path))
                 prev[m.id] = n
                 if goal(m):
                     path = [m]
